@@ -10,6 +10,9 @@ def resetAction : Action → Action
   | .command _ => .default
   | a => a
 
+/-- the Spec's `posixReset` (Spec.lean) is the same function -/
+theorem posixReset_eq (a : Action) : posixReset a = resetAction a := by cases a <;> rfl
+
 theorem enterState_fields (g : GrandState) (opt : SubOpt) :
     (g.enterState opt).internal = (if opt = .keep then g.internal else .default)
     ∧ (g.enterState opt).current.action = (if opt = .ignore then .ignore else resetAction g.current.action)
